@@ -295,11 +295,13 @@ func (t *WeightedMerkleTrie) resolveHashNode(node *hashNode) (Node, error) {
 // Put puts a key-value pair into the trie
 func (t *WeightedMerkleTrie) Put(key, value []byte, weight uint64) error {
 	k := keybytesToHex(key)
+	value = append([]byte(nil), value...) // as in Update: the trie keeps a copy, the caller keeps its buffer
 	_, newNode, err := t.insert(t.root, nil, k, &valueNode{value: value, weight: weight, dirty: true})
 	if err != nil {
 		return err
 	}
 	t.root = newNode
+	t.pending = true
 	return nil
 }
 
